@@ -59,6 +59,8 @@ def make(c: dict):
         idx[0] = shape[0] - 1
         Xd[tuple(idx)] = 0
         Xd[(0,) * (len(shape) - 1)] = 0          # an all-zero fibre
+    if c.get("comp_zero"):
+        Xd[(0,) * len(shape)] = max(Xd[(0,) * len(shape)], 3.0)
     if c.get("all_zero"):
         Xd[...] = 0
     elif np.count_nonzero(Xd) < 2:            # the all-zero tensor is exercised by explicit witness runs only
@@ -77,6 +79,11 @@ def make(c: dict):
         init = ttb.ktensor([f.copy() for f in init.factor_matrices], np.array([2.0, 1.0, 0.0, 3.0][:R][::-1].copy()))
     if c["zero_row"]:
         init.factor_matrices[1][0, :] = 0.0
+    if c.get("comp_zero") and R >= 2:
+        # complementary zeros in two factor matrices (a thresholded / indicator-like start): no row is all zero, yet the
+        # model vanishes on the fibre (0, 0, :), where the data hold a count
+        init.factor_matrices[0][0, 0] = 0.0
+        init.factor_matrices[1][0, 1:] = 0.0
     return X, Xd, init
 
 
@@ -160,6 +167,8 @@ def tags_of(tr, k):
             tags.append("dense_zero_slice_first_iterate_bad")
         elif ev["args"].get("stoptol_zero"):
             tags.append("stoptol_zero_first_iterate_bad")
+        elif tr["cfg"].get("comp_zero"):
+            tags.append("comp_zero_guess_first_iterate_bad")
     return tags
 
 
@@ -220,6 +229,12 @@ def main(tier: str) -> int:
             runs.append({"alg": alg, "shape": [4, 3, 3], "sparse": sp, "maxiters": 2, "maxinner": 3, "rank": 3, "seed": sd + 4,
                          "stoptol": 1e-4, "printitn": 0, "precompinds": True, "inexact": True, "lbfgs": 3,
                          "empty_slice": False, "zero_row": False, "zero_weight": True})
+    for alg in ("mu", "pdnr", "pqnr"):
+        for sp in (False, True):
+            for k in range(3):
+                runs.append({"alg": alg, "shape": [4, 3, 3], "sparse": sp, "maxiters": 2, "maxinner": 3, "rank": 2, "seed": sd + 20 + k,
+                             "stoptol": 1e-4, "printitn": 0, "precompinds": bool(k % 2), "inexact": True, "lbfgs": 3,
+                             "empty_slice": False, "zero_row": False, "comp_zero": True})
     # witnesses of K-C11-sparse-all-zero-data (dense all-zero data is answered by mu and pdnr)
     for alg in ("mu", "pdnr", "pqnr"):
         for sp in (False, True):
